@@ -32,6 +32,19 @@ pub fn stderr_lines() -> u64 {
     std::fs::metadata(ERR_PATH.get().unwrap()).map(|m| m.len()).unwrap_or(0)
 }
 
+/// what was written to stderr after byte offset `from`
+pub fn stderr_tail(from: u64) -> String {
+    use std::io::{Read, Seek, SeekFrom};
+    let mut f = match File::open(ERR_PATH.get().unwrap()) {
+        Ok(f) => f,
+        Err(_) => return String::new(),
+    };
+    let _ = f.seek(SeekFrom::Start(from));
+    let mut s = String::new();
+    let _ = f.read_to_string(&mut s);
+    s
+}
+
 #[allow(dead_code)]
 pub fn stdout_lines() -> u64 {
     std::fs::metadata(OUT_PATH.get().unwrap()).map(|m| m.len()).unwrap_or(0)
